@@ -1,6 +1,7 @@
-(* C13 - a bytecode file read and written back is the same program for its Python (partial: header). *)
+(* C13 - a bytecode file read and written back is the same program for its Python: header and payload. *)
 From Xdis Require Import Base.Prelude Base.Result Base.LE Model.Magic Model.Load Model.WriteHeader Gen.Magics Gen.RefMagics
-  Spec.Registry Spec.Header Proofs.HeaderDefs Proofs.HeaderProofs Proofs.WriteProofs.
+  Spec.Registry Spec.Header Proofs.HeaderDefs Proofs.HeaderProofs Proofs.WriteProofs
+  Model.Unmarshal Model.UnmarshalObs Model.Marsh Gen.Dispatch Proofs.C10Tables Proofs.MarshRoundTrip Proofs.C14Tables.
 
 (* Header: for the magic of every final release (and the PyPy corpus magics) whose 4 magic bytes
    the writer reproduces, every 32-bit timestamp and size and every payload: what
@@ -25,3 +26,45 @@ Proof. exact write_then_read. Qed.
 Example C13_nonvacuous : existsb (fun '(m, _, _) => m =? 3413) writable = true /\ existsb (fun '(m, _, _) => m =? 62211) writable = true
   /\ write_header 3413 7 9 = Ok [85; 13; 13; 10; 0; 0; 0; 0; 7; 0; 0; 0; 9; 0; 0; 0].
 Proof. repeat split; vm_compute; reflexivity. Qed.
+
+(* Payload: what write_bytecode_file puts after the header is xdis.marsh.dumps of the code object (dump_code3 for Python 3
+   targets: 'c', the integer fields, each object field in turn).  For the magic of EVERY Python 3.0-3.10 version in xdis's
+   table and EVERY well-formed code-object tree - any nesting of code objects inside constants, any constants of C14's kinds,
+   32-bit integer fields, posonlyargcount written exactly when that version's reader reads it - CPython's own reader of that
+   version (the strict configuration validated in C10) loads the written bytes to the same tree and stops at their end ... *)
+Definition code_wfv (c : cfg) : pv -> Prop := wfv (posonly_read c) c true.
+
+Theorem C13_payload_cpython_loads : forall m (repr_float : Z -> list Z) v, In m all_magics -> py3_pre311_magic m = true ->
+  code_wfv (cpy_cfg m) v ->
+  load (cpy_cfg m) (dumps repr_float (posonly_read (cpy_cfg m)) v) = Ok (textify repr_float v, {| inp := []; refs := []; strs := [] |}).
+Proof.
+  intros m repr_float v Hin H3 Hw. destruct (cpy_code_cfg m Hin H3) as [Hc Hk].
+  exact (loads_dumps repr_float (posonly_read (cpy_cfg m)) (cpy_cfg m) Hc true (fun _ => Hk) v Hw).
+Qed.
+
+(* ... and so does xdis's own unmarshaller when it re-reads the file it wrote *)
+Theorem C13_payload_xdis_rereads : forall m (repr_float : Z -> list Z) v, In m all_magics -> py3_pre311_magic m = true ->
+  code_wfv (xdis_cfg m) v ->
+  load (xdis_cfg m) (dumps repr_float (posonly_read (xdis_cfg m)) v) = Ok (textify repr_float v, {| inp := []; refs := []; strs := [] |}).
+Proof.
+  intros m repr_float v Hin H3 Hw. destruct (xdis_code_cfg m Hin H3) as [Hc Hk].
+  exact (loads_dumps repr_float (posonly_read (xdis_cfg m)) (xdis_cfg m) Hc true (fun _ => Hk) v Hw).
+Qed.
+
+Definition ex_code38 : pv :=
+  PCode [1; 0; 0; 2; 3; 67; 5]
+        [PBin [100; 1; 83; 0]; PTuple [PNone; PInt 7; PCode [0; 0; 0; 0; 1; 83; 6] [PBin [100; 0; 83; 0]; PTuple [PNone]; PTuple []; PTuple []; PTuple []; PTuple []; PText [102]; PText [103]; PNone; PBin []; PNone]];
+         PTuple [PText [120]]; PTuple [PText [97]; PText [98]]; PTuple []; PTuple []; PText [102; 46; 112; 121]; PText [102]; PNone; PBin [0; 1]; PNone].
+
+Example C13_payload_nonvacuous :
+  existsb (Z.eqb 3413) all_magics = true /\ py3_pre311_magic 3413 = true /\ posonly_read (cpy_cfg 3413) = true
+  /\ code_wfv (cpy_cfg 3413) ex_code38
+  /\ load (cpy_cfg 3413) (dumps (fun _ => []) true ex_code38) = Ok (ex_code38, {| inp := []; refs := []; strs := [] |})
+  /\ posonly_read (cpy_cfg 3394) = false.
+Proof.
+  assert (Hp : posonly_read (cpy_cfg 3413) = true) by (vm_compute; reflexivity).
+  split; [vm_compute; reflexivity|]. split; [vm_compute; reflexivity|]. split; [exact Hp|]. split; [|split; vm_compute; reflexivity].
+  unfold code_wfv. rewrite Hp. unfold ex_code38.
+  repeat (first [apply wf_code | apply wf_tuple | apply wf_bin | apply wf_text | apply wf_none | apply wf_int | apply Forall_cons | apply Forall_nil | split]);
+    try reflexivity; try (unfold in32; lia); try (unfold small_len; vm_compute; reflexivity); try (vm_compute; reflexivity).
+Qed.
